@@ -17,6 +17,8 @@ TRACE_FILES = (
     'forml/application/_strategy.py',
     'forml/application/_descriptor.py',
     'forml/provider/gateway/rest.py',
+    'forml/provider/inventory/posix.py',
+    'forml/setup/_importer.py',
 )
 TRACE_ENTRY_FILES = (  # pre-emption at function entry only (cheap): enough to interleave registry reads
     'forml/io/asset/_access.py',
@@ -68,6 +70,21 @@ def install() -> None:
     dispatch.futures = sim.futures_shim
     _strategy.threading = sim.threading_shim
     _strategy.time = sim.time_shim()
+    # component loading (descriptors of the posix inventory are loaded on the serving thread pool): what the loader does
+    # around an import is pre-emptible, the import itself is one step (the interpreter's import locks are real locks)
+    import importlib  # pylint: disable=import-outside-toplevel
+    import types  # pylint: disable=import-outside-toplevel
+
+    from forml.setup import _importer  # pylint: disable=import-outside-toplevel
+
+    from . import kernel as kmod  # pylint: disable=import-outside-toplevel
+
+    def import_module(name, package=None):
+        with kmod.atomic():
+            return importlib.import_module(name, package)
+
+    _importer.importlib = types.SimpleNamespace(import_module=import_module, invalidate_caches=importlib.invalidate_caches)
+    _importer.threading = sim.threading_shim
     assert sim.SimSpawnProcess in prediction.Pool.__mro__, 'Pool is not simulated'
     assert sim.SimForkProcess in prediction.Pool.Worker.__mro__, 'Pool.Worker is not simulated'
     assert sim.SimThread in prediction.Executor.__mro__, 'Executor is not simulated'
